@@ -188,6 +188,10 @@ def build_truth(case, c, spec):
     from quara.objects.gate import Gate
     from quara.objects.mprocess import MProcess
     mode = MODE[case["kind"]]
+    if spec.get("custom"):
+        # qubit POVMs with 3 / 4 outcomes (outcome count != dimension)
+        obj = _trine_povm(c, float(spec["phi"])) if spec["custom"] == "trine" else _odd_povms(c)[1]
+        return _depolarize(obj, mode, c, spec["dep"]) if spec.get("dep") else obj
     kw = {"ids": [0, 1]} if (mode == "gate" and case["sys"] == "q2") else {}
     objs = [generate_qoperation(mode=mode, name=nm, c_sys=c, **kw) for nm in spec["names"]]
     ws = [float(fr(w)) for w in spec["weights"]]
@@ -203,7 +207,43 @@ def build_truth(case, c, spec):
         obj = MProcess(c, [sum(w * o.hss[x] for w, o in zip(ws, objs)) for x in range(len(objs[0].hss))], is_physicality_required=False)
     if spec.get("dep"):
         obj = _depolarize(obj, mode, c, spec["dep"])
+    if spec.get("split"):
+        # an instrument with m >= 3 outcomes from a 2-outcome one: outcome 0 is split into m-1 outcomes, each followed by its own
+        # unitary gate and weighted (weights sum to 1): every element stays CP, the sum stays trace preserving, the FIRST ROWS of
+        # the m Hilbert-Schmidt matrices are all different (w_i * first row of HS_0, and first row of HS_1)
+        ws2 = [float(fr(w)) for w in spec["split"]["w"]]
+        gs = [generate_qoperation(mode="gate", name=nm, c_sys=c).hs for nm in spec["split"]["gates"]]
+        hss = [w * (g @ obj.hss[0]) for w, g in zip(ws2, gs)] + [obj.hss[1]]
+        obj = MProcess(c, hss, is_physicality_required=False)
     return obj
+
+
+def ref_stacked_from_var(mode, dim, nout, var, para):
+    """independent reference for 'the object that carries these variables' (stacked vector in quara's layout), written from the
+    definitions, NOT through quara's convert_var_to_*: with the equality constraint parametrised away the omitted components are
+    state: v_0 = 1/sqrt(d);  povm: E_last = sqrt(d) e_0 - sum of the others;  gate: first HS row = e_0;
+    mprocess: first row of the LAST HS matrix = e_0 - sum over the other outcomes of THEIR first rows"""
+    var = np.asarray(var, dtype=float)
+    d2 = dim * dim
+    e0 = np.zeros(d2); e0[0] = 1.0
+    if not para:
+        return var.copy()
+    if mode == "state":
+        return np.hstack([[1.0 / np.sqrt(dim)], var])
+    if mode == "povm":
+        vs = var.reshape(nout - 1, d2)
+        return np.hstack([vs.flatten(), np.sqrt(dim) * e0 - vs.sum(axis=0)])
+    if mode == "gate":
+        return np.hstack([e0, var])
+    hs_size = d2 * d2
+    out, first_sum = [], np.zeros(d2)
+    for x in range(nout - 1):
+        blk = var[x * hs_size:(x + 1) * hs_size]
+        first_sum = first_sum + blk[:d2]
+        out.append(blk)
+    rest = var[(nout - 1) * hs_size:]
+    out.append(np.hstack([e0 - first_sum, rest]))
+    return np.hstack(out)
 
 
 def true_var(obj, c, para):
@@ -320,7 +360,7 @@ def gen_datasets(ctx, case, qt, c, A, b, sizes):
         with warnings.catch_warnings():
             warnings.simplefilter("ignore")
             pd = qt.generate_prob_dists_sequence(obj)
-        lab = "interior" if spec.get("dep") else ("pure" if len(spec["names"]) == 1 else "boundary-mix")
+        lab = "interior" if spec.get("dep") else ("pure" if len(spec.get("names", [0])) == 1 else "boundary-mix")
         out.append({"kind": "exact", "label": "exact-" + lab, "dists": [np.array(p, dtype=float) for p in pd], "exact": None,
                     "tvar": true_var(obj, c, para), "obj": obj})
     for s in case.get("sampled", []):
@@ -353,7 +393,7 @@ def chk_tomo(ctx, case):
     A = np.array(qt.calc_matA(), dtype=float); b = np.array(qt.calc_vecB(), dtype=float)
     m_, n_ = A.shape
     sizes = block_sizes(qt)
-    lab0 = "%s-%s-%s-%s" % (case["kind"], case["sys"], "para" if para else "full", case.get("tset", "?"))
+    lab0 = "%s-%s-%s-%s%s" % (case["kind"], case["sys"], "para" if para else "full", case.get("tset", "?"), ("-m%d" % case["nout"]) if case.get("nout") else "")
     if n_ != qt.num_variables or sum(sizes) != m_ or b.shape != (m_,):
         ctx.violation(sub, "StandardQTomography.calc_matA", "shape", "matA %s vecB %s num_variables %s blocks %s" % (A.shape, b.shape, qt.num_variables, sizes), case)
         return
@@ -473,6 +513,12 @@ def chk_tomo(ctx, case):
             back = true_var(qo, c, para)
             if maxabs(back, r1.estimated_var) > 1e-12 * scale or bool(qo.on_para_eq_constraint) != para:
                 ctx.violation(sub, SITE_RES + ".estimated_qoperation", "result-object", "%s: variables of the returned object differ from estimated_var by %.3g" % (lab0, maxabs(back, r1.estimated_var)), sc)
+            # ... including the components that the equality constraint fixes (to_var drops exactly those, so the round trip
+            # above is blind to them): the WHOLE stacked vector against an independent expansion of the estimated variables
+            ref = ref_stacked_from_var(MODE[case["kind"]], c.dim, case.get("nout"), r1.estimated_var, para)
+            if maxabs(qo.to_stacked_vector(), ref) > 1e-12 * scale:
+                ctx.violation(sub, SITE_RES + ".estimated_qoperation", "result-object-constrained-part", "%s %s: the returned object differs from the object defined by estimated_var (equality constraint %s) by %.3g"
+                              % (lab0, d["label"], "parametrised away" if para else "kept", maxabs(qo.to_stacked_vector(), ref)), sc)
             if d["obj"] is not None and maxabs(qo.to_stacked_vector(), d["obj"].to_stacked_vector()) > (tol + 1e-12 * kappa) * scale * 4:
                 ctx.violation(sub, SITE_RES + ".estimated_qoperation", "object-recovery", "%s %s: object estimated from exact data differs from the true object by %.3g"
                               % (lab0, d["label"], maxabs(qo.to_stacked_vector(), d["obj"].to_stacked_vector())), sc)
@@ -487,6 +533,8 @@ def chk_tomo(ctx, case):
             qos = ires.estimated_qoperation_sequence
         if len(qos) != len(xs_impl) or any(maxabs(true_var(q, c, para), x) > 1e-12 * (1 + np.abs(x).max()) for q, x in zip(qos, xs_impl)):
             ctx.violation(sub, SITE_RES + ".estimated_qoperation_sequence", "result-object", "objects of the sequence do not carry the estimated variables", case)
+        elif any(maxabs(q.to_stacked_vector(), ref_stacked_from_var(MODE[case["kind"]], c.dim, case.get("nout"), x, para)) > 1e-12 * (1 + np.abs(x).max()) for q, x in zip(qos, xs_impl)):
+            ctx.violation(sub, SITE_RES + ".estimated_qoperation_sequence", "result-object-constrained-part", "%s: an object of the sequence differs from the object defined by its estimated variables in the components fixed by the equality constraint" % lab0, case)
     except Exception as e:
         ctx.violation(sub, SITE_RES + ".estimated_qoperation_sequence", "result-object-raise", "%s %s" % (type(e).__name__, str(e)[:200]), case)
     st3, r3 = impl_seq(qt, seq[::-1], is_computation_time_required=True)
@@ -540,6 +588,19 @@ def check_rank_deficient(ctx, sub, case, A, ms, ist, ires, fullrank_impl):
 
 def truth_specs(rng, kind, sysname, nout, k):
     mode = MODE[kind]
+    if mode in ("povm", "mprocess") and (mode, sysname, nout) not in TRUTH_NAMES:
+        # qubit, 3 or 4 outcomes: no typical object exists
+        specs = []
+        for i in range(k):
+            dep = [0, rng.choice([0.05, 0.2, 0.5]), rng.choice([0, 0.1])][i % 3]
+            if mode == "povm":
+                specs.append({"custom": "trine", "phi": rng.choice([0.3, 1.1, 2.0]), "dep": dep} if nout == 3 else {"custom": "four", "dep": dep})
+            else:
+                cuts = sorted(rng.sample(range(1, 8), nout - 2))
+                ws = [Fraction(b - a, 8) for a, b in zip([0] + cuts, cuts + [8])]
+                specs.append({"names": [rng.choice(TRUTH_NAMES[(mode, sysname, 2)])], "weights": ["1"], "dep": dep,
+                              "split": {"w": [fstr(w) for w in ws], "gates": [rng.choice(TRUTH_NAMES[("gate", sysname)]) for _ in ws]}})
+        return specs
     names = TRUTH_NAMES[(mode, sysname)] if mode in ("state", "gate") else TRUTH_NAMES[(mode, sysname, nout)]
     specs = []
     for i in range(k):
@@ -613,6 +674,11 @@ def sub_tomo(ctx):
             cases.append(tomo_case(rng, "qst", "t1", para, "over-dep", perm=True))
             cases.append(tomo_case(rng, "povmt", "t1", para, "complete", nout=3, n_truth=3, n_adv=1, n_var=1, n_samp=1))
             cases.append(tomo_case(rng, "povmt", "t1", para, "over-dep", nout=2, n_truth=2, n_adv=1, n_var=1, n_samp=1))
+            # estimated objects with m >= 3 outcomes on a qubit (outcome count != dimension; with the equality constraint
+            # parametrised away the last element is reconstructed from ALL the others): POVMT and QMPT, m = 3 and 4
+            for nout_ in (3, 4):
+                cases.append(tomo_case(rng, "povmt", "q1", para, "complete-dep", nout=nout_, n_truth=2, n_adv=1, n_var=1, n_samp=1))
+                cases.append(tomo_case(rng, "qmpt", "q1", para, "complete", nout=nout_, n_truth=2, n_adv=1, n_var=1, n_samp=0))
             # qubit tester set with 1-, 2- and 4-outcome POVMs (outcome count != dimension, single outcome), also re-ordered
             cases.append(tomo_case(rng, "qst", "q1", para, "odd", n_truth=2, n_adv=1, n_var=1, n_samp=1))
             cases.append(tomo_case(rng, "qst", "q1", para, "odd-dep", perm=True, n_truth=2, n_adv=1, n_var=1, n_samp=1))
@@ -983,6 +1049,12 @@ def chk_history(ctx, case):
         pm = pool[job["t"]]
         job["out"] = _job_estimates(pm["qt"], ests[job["est"]], job["seq"], job["mode"])
         job["snap"] = None if job["out"][0] != "ok" else [x.copy() for x in job["out"][2]]
+        # the caller scribbles on the arrays the tomography hands out: later jobs (and the tomography) must not notice
+        for arr in (pm["qt"].calc_matA(), pm["qt"].calc_vecB()):
+            try:
+                arr[...] = np.nan
+            except (ValueError, TypeError):      # read-only buffers are fine
+                pass
         job["collision"] = any(k == pm["shape_key"] and t != job["t"] for k, t in seen[job["est"]])
         seen[job["est"]].append((pm["shape_key"], job["t"]))
     # ---- every result against the model's result for that job ALONE
@@ -1105,13 +1177,13 @@ def chk_large(ctx, case):
     G = A.T @ A
     kappa = float(np.linalg.cond(G, np.inf))      # float estimate, used for the tolerance only (the exact inverse is out of budget)
     normG = float(np.abs(G).sum(axis=1).max())
-    seq, tv = [], []
+    seq, tv, objs = [], [], []
     for spec in case["truths"]:
         obj = build_truth(case, c, spec)
         with warnings.catch_warnings():
             warnings.simplefilter("ignore")
             pd = qt.generate_prob_dists_sequence(obj)
-        seq.append([(100, np.array(p, dtype=float)) for p in pd]); tv.append(true_var(obj, c, para))
+        seq.append([(100, np.array(p, dtype=float)) for p in pd]); tv.append(true_var(obj, c, para)); objs.append(obj)
     rng = random.Random(case["seed"])
     seq.append(split_blocks_counts([float(Fraction(rng.randint(-24, 40), 16)) for _ in range(m_)], block_sizes(qt)))
     tv.append(None)
@@ -1134,6 +1206,15 @@ def chk_large(ctx, case):
             ctx.violation(sub, SITE_EST, "normal-equations", "large: |A^T(Ax-(f-b))|_inf = %.3g (tol %.3g)" % (max(abs(v) for v in atr), normG * tol * scale), dict(case, focus=i))
         if t is not None and maxabs(x, t) > tol * scale:
             ctx.violation(sub, SITE_EST, "exact-recovery", "large: estimate from exact data differs from the true variables by %.3g" % maxabs(x, t), dict(case, focus=i))
+        # the returned OBJECT: whole stacked vector vs the independent expansion of the estimated variables and vs the true object
+        with warnings.catch_warnings():
+            warnings.simplefilter("ignore")
+            qo = ires.estimated_qoperation_sequence[i] if i else ires.estimated_qoperation
+        ref = ref_stacked_from_var(MODE[case["kind"]], c.dim, case.get("nout"), x, para)
+        if maxabs(qo.to_stacked_vector(), ref) > 1e-12 * scale:
+            ctx.violation(sub, SITE_RES + ".estimated_qoperation", "result-object-constrained-part", "large: the returned object differs from the object defined by estimated_var by %.3g" % maxabs(qo.to_stacked_vector(), ref), dict(case, focus=i))
+        if t is not None and maxabs(qo.to_stacked_vector(), objs[i].to_stacked_vector()) > 4 * tol * scale:
+            ctx.violation(sub, SITE_RES + ".estimated_qoperation", "object-recovery", "large: object estimated from exact data differs from the true object by %.3g" % maxabs(qo.to_stacked_vector(), objs[i].to_stacked_vector()), dict(case, focus=i))
 
 
 def split_blocks_counts(vec, sizes):
